@@ -32,7 +32,8 @@ ID = "T01"
 THEOREMS = [
     "T01_gen_move_eq", "T01_gen_move_never_crashes", "T01_gen_move_slide_none", "T01_gen_move_ok_iff",
     "T01_gen_slide_loop_eq", "T01_gen_all_moves_eq", "T01_gen_table_eq", "T01_gen_all_slides_eq",
-    "T01_gen_winner_eq", "T01_gen_flat_counts_eq", "T01_gen_flats_winner_eq", "T01_gen_small_functions",
+    "T01_gen_walk_loop_eq", "T01_gen_walk_eq", "T01_gen_has_road_eq", "T01_gen_has_road_ok", "T01_gen_winner_eq",
+    "T01_gen_winner_ok", "T01_gen_has_road_verdict", "T01_gen_flat_counts_eq", "T01_gen_flats_winner_eq", "T01_gen_small_functions",
     "T01_gen_from_squares_eq",
     "T01_gen_move_iff", "T01_gen_move_total", "T01_gen_generator_complete", "T01_gen_generator_complete_rulebook",
     "T01_gen_inv_step", "T01_gen_wf_step", "T01_gen_winner_outcome",
@@ -45,8 +46,9 @@ TRUSTED_BASE = [
     "dict lookup - validated against CPython on random inputs inside Coq on every run",
     "harness/py2coq.py: the scheme statements -> Gallina (rebinding instead of mutation on lists the function created "
     "itself, `delta[k] = list variable` as a reference resolved at exit, for loops as structural recursion, "
-    "exceptions as outcomes); Piece.cached(c, k) entered as `mkPiece c k` (source pinned); Position.has_road "
-    "entered as Road.has_road (C02) - validated by running the generated functions against the implementation",
+    "exceptions as outcomes, `while` on annotated fuel with OutOfFuel an outcome the theorems exclude); "
+    "Piece.cached(c, k) entered as `mkPiece c k` (source pinned) - validated by running the generated functions "
+    "against the implementation; Position.has_road / _walk are translated too (a set is a list used as a set)",
 ]
 ASSUMPTIONS = [
     "equalities hold for every position whose board list has size^2 entries (`shape`; part of wf_pos) and EVERY move "
@@ -105,7 +107,8 @@ Inductive pcase :=
 | CEnum (which i : Z) (o : ob Z)                              (* Color(i) / Kind(i) / MoveType(i): index of the member *)
 | CDir (t : mtype) (o : ob (Z * Z))                           (* DIRECTIONS[t] *)
 | CCat (l1 l2 r : list Z)                                     (* l1 + l2 *)
-| CAnyAll (l : list (list Z)) (a b : bool).                   (* all(l), any(len(x) == 0 for x in l) *)
+| CAnyAll (l : list (list Z)) (a b : bool)                    (* all(l), any(len(x) == 0 for x in l) *)
+| CPop (l : list Z) (o : ob (Z * list Z)).                    (* x = l.pop(): (x, l afterwards) *)                   (* all(l), any(len(x) == 0 for x in l) *)
 Definition pchk (c : pcase) : bool :=
   match c with
   | CGet l i o => agree Z.eqb (py_getitem l i) o
@@ -127,6 +130,7 @@ Definition pchk (c : pcase) : bool :=
   | CDir t o => agree (fun a b => (fst a =? fst b) && (snd a =? snd b)) (py_dict_get mtype_eqb GameGen.DIRECTIONS t) o
   | CCat l1 l2 r => zl_eqb (l1 ++ l2) r
   | CAnyAll l a b => Bool.eqb (forallb truthy_list l) a && Bool.eqb (existsb (fun x => len x =? 0) l) b
+  | CPop l o => agree (fun a b => (fst a =? fst b) && zl_eqb (snd a) (snd b)) (py_pop l) o
   end.
 """
 SEM_HEADER = SEM_HEADER.replace("From TV Require Import model.Tak model.Road model.PySem model.Lit.",
@@ -182,7 +186,7 @@ def sem_cases(run, tak, n, with_gen=True):
 
     zopt = lambda b: copt(None if b is None else cz(b))  # noqa
     kinds = ["get"] * 6 + ["set"] * 4 + ["slice"] * 10 + ["tup"] * 2 + ["range", "range2", "sum", "len", "mod", "iter",
-                                                                         "getattr", "evolve", "enum", "dir", "cat", "anyall"]
+                                                                         "getattr", "evolve", "enum", "dir", "cat", "anyall", "pop", "pop"]
     MT = list(tak.MoveType)
     if not with_gen:
         kinds = [k for k in kinds if k not in ("enum", "dir")]
@@ -263,6 +267,15 @@ def sem_cases(run, tak, n, with_gen=True):
         elif k == "cat":
             a, b = rl(4), rl(4)
             add(k, f"CCat {czlist(a)} {czlist(b)} {czlist(a + b)}", {"expr": f"{a} + {b}"})
+        elif k == "pop":
+            l = rl(4)
+
+            def f():
+                l2 = list(l)
+                x = l2.pop()
+                return (x, l2)
+            t, j = _ob(f, lambda r: f"({cz(r[0])}, {czlist(r[1])})")
+            add(k, f"CPop {czlist(l)} {t}", {"expr": f"l = {l}; l.pop()", **j})
         else:
             ll = [rl(2) for _ in range(rng.randint(0, 4))]
             add(k, f"CAnyAll {clist([czlist(x) for x in ll])} {core.cbool(all(ll))} "
@@ -296,17 +309,18 @@ Definition wr_eqb (a b : option color * option reason) : bool :=
   opt_eqb color_eqb (fst a) (fst b) && opt_eqb reason_eqb (snd a) (snd b).
 Definition okb {A} (eqb : A -> A -> bool) (r : res A) (v : A) : bool :=
   match r with Ok w => eqb w v | _ => false end.
-(* position, (move, observed outcome) list, observed all_moves, winner, flat_counts *)
-Definition gcase := (position * list (mv * obs) * list mv * (option color * option reason) * (Z * Z))%type.
+(* position, (move, observed outcome) list, observed all_moves, winner, flat_counts, has_road *)
+Definition gcase := (position * list (mv * obs) * list mv * (option color * option reason) * (Z * Z) * option color)%type.
 Definition chk1 (p : position) (mo : mv * obs) : bool := same (GameGen.move p (fst mo)) (snd mo).
 Definition gchk (c : gcase) : bool :=
-  let '(p, l, am, w, fc) := c in
+  let '(p, l, am, w, fc, hr) := c in
   forallb (chk1 p) l && okb (list_eqb mv_eqb) (GameGen.all_moves p) am && okb wr_eqb (GameGen.winner p) w &&
-  okb (fun a b => (fst a =? fst b) && (snd a =? snd b)) (GameGen.flat_counts p) fc.
+  okb (fun a b => (fst a =? fst b) && (snd a =? snd b)) (GameGen.flat_counts p) fc &&
+  okb (opt_eqb color_eqb) (GameGen.has_road p) hr.
 Definition view (c : gcase) :=
-  let '(p, l, am, w, fc) := c in
+  let '(p, l, am, w, fc, hr) := c in
   (bad_indices (chk1 p) l, map (fun mo => GameGen.move p (fst mo)) (filter (fun mo => negb (chk1 p mo)) l),
-   okb (list_eqb mv_eqb) (GameGen.all_moves p) am, GameGen.winner p, GameGen.flat_counts p).
+   okb (list_eqb mv_eqb) (GameGen.all_moves p) am, GameGen.winner p, GameGen.flat_counts p, GameGen.has_road p).
 """
 
 
@@ -391,7 +405,7 @@ def gen_cases(run, tak, triples, name="gen"):
         w = p.winner()
         fc = p.flat_counts()
         term = (f"({takio.c_pos(p)}, {clist(items)}, {clist([takio.c_move(m) for m in am])}, "
-                f"({takio.c_color(w[0])}, {_c_reason(w[1])}), ({cz(fc[0])}, {cz(fc[1])}))")
+                f"({takio.c_color(w[0])}, {_c_reason(w[1])}), ({cz(fc[0])}, {cz(fc[1])}), {takio.c_color(p.has_road())})")
         cs.add(term, {"label": label, "position": takio.j_pos(p), "moves": mj,
                       "impl_all_moves": len(am), "impl_winner": [str(w[0]), str(w[1])], "impl_flat_counts": list(fc)})
     return cs, stats
@@ -512,7 +526,9 @@ def search(run, broken):
                     "clause": "every legal move is generated", "input": {"position": takio.j_pos(p), "move": takio.j_move(m)},
                     "generator": label, "broken_obligations": [o[0] for o in broken]})
                 return True
-    return False
+    # has_road / winner are translated as well: C02's component-labelling oracle of the road / outcome statement
+    import importlib
+    return bool(importlib.import_module("harness.props.c02").search(run, broken))
 
 
 def replay(run, rp):
